@@ -554,8 +554,42 @@ def gen_history(world, rng, big):
             emit(("OIadd", comb, len(env) - 1))
             emit(("OBuild", outer, [], full_kwargs()))
 
-    if rng.random() < 0.3:
+    def same_class_script():
+        """Directed: sub-detectors of the SAME Detector subclass whose (mirrored) build signatures differ per
+        object -- stations of one class holding strings of different kinds -- combined and built with every
+        keyword; keyword routing has to look at each object, not at its class."""
+        comp = rng.choice([1, 1, 4])
+        kinds = rng.sample([2, 3, 0, 7], rng.choice([2, 2, 3]))
+        stations = []
+        for c in kinds:
+            strs = []
+            for _ in range(rng.choice([1, 2])):
+                emit(("ONewBase", g.next_oid, c, g.fresh_pos(rng.choice([1, 2]), allow_above=False)))
+                g.next_oid += 1
+                strs.append(len(env) - 1)
+            emit(("ONewComp", g.next_oid, comp, strs))
+            g.next_oid += 1
+            stations.append(len(env) - 1)
+        if rng.random() < 0.7:
+            emit(("OAdd", stations[0], stations[1]))
+            outer = len(env) - 1
+            for st in stations[2:]:
+                emit(("OIadd", outer, st))
+        else:
+            emit(("ONewComp", g.next_oid, rng.choice(comp_classes), stations))
+            g.next_oid += 1
+            outer = len(env) - 1
+        emit(("OBuild", outer, [], full_kwargs()))
+        emit(("OObs", outer, [0, -1]))
+        if rng.random() < 0.5:
+            kw = full_kwargs()
+            emit(("OBuild", outer, [], [kv for kv in kw if kv[0] != rng.choice([5, 6])]))
+
+    r0 = rng.random()
+    if r0 < 0.3:
         mirror_script()
+    elif r0 < 0.5:
+        same_class_script()
     for _ in range(nbase):
         emit(("ONewBase", g.next_oid, rng.choice(base_classes), g.fresh_pos(rng.choice([0, 1, 2, 2, 3, 4]))))
         g.next_oid += 1
